@@ -13,7 +13,7 @@ C05.i the comparison is sensitive to every component of a specification
 import ast
 
 from ..core.flow import call_name, calls_in, is_name, propagate_unverified, node_calls
-from ..core.loader import AnalysisError, short, own_nodes, norm
+from ..core.loader import AnalysisError, short, own_nodes, norm, canon, function_locals
 from ..core.minieval import Unsupported, Raised
 from ..core.report import where
 from ..specs.evm import COMMUTATIVE
@@ -36,8 +36,8 @@ V = "verification.sfs_verify"
 
 # raise sites in the comparison without an exhibited failing input (block-level effect is contained since the F5 repair)
 TRIAGED_UNPROVEN = {
-    "compare_dependences:raise:len(second_instr_list) != 1": "twin of the witnessed first-component site (a dependence naming an id that is not a unique storage/memory record); no input found that passes the first test and fails this one",
-    "compare_dependences:raise:len(dep_opt_elemlist) == 0": "no KECCAK dependence with the same second id in the optimized list; conservative reject",
+    # keys are canonical in the function's local names (L1 = first local mentioned)
+    "compare_dependences:raise:len(L1) == 0": "no KECCAK dependence with the same second id in the optimized list; conservative reject",
 }
 
 
@@ -193,7 +193,7 @@ def rule_c(ctx, out):
 
 
 def rule_d(ctx, out):
-    roots = [ctx.func(f"{V}.verify_block_from_list_of_sfs")]
+    roots = [ctx.callee_in(ctx.func("gasol_asm.compare_asm_block_asm_format"), V)]
     reach = ctx.r.reachable(roots, by_name=False)
     out.info["functions_reachable_from_the_comparison"] = sorted(reach)
     n = 0
@@ -203,7 +203,7 @@ def rule_d(ctx, out):
                 n += 1
                 p = getattr(st, "_parent", None)
                 cond = norm(p.test) if isinstance(p, ast.If) else "?"
-                key = f"{f.name}:raise:{cond}"
+                key = f"{f.name}:raise:{canon(cond, function_locals(f.node))}"
                 if key in TRIAGED_UNPROVEN:
                     if key not in [u["site"] for u in out.unproven]:
                         out.unproven.append({"site": key, "reason": TRIAGED_UNPROVEN[key]})
@@ -318,7 +318,7 @@ def rule_f(ctx, out):
                     t = p.test
                     n += 1
                     if _name_level_compare(t):
-                        out.bad(f"name-equality-shortcut:{f.name}:{norm(t)}", f"in {f.name} the structural comparison `{short(c, 50)}` is only carried out when "
+                        out.bad(f"name-equality-shortcut:{f.name}:{canon(norm(t), function_locals(f.node))}", f"in {f.name} the structural comparison `{short(c, 50)}` is only carried out when "
                                 f"`{norm(t)}`: two values with the same local names are taken to be the same without looking at what they denote",
                                 where(f, p))
                     elif isinstance(t, ast.BoolOp) and isinstance(t.op, ast.Or) and any(_name_level_compare(v) for v in t.values):
@@ -327,7 +327,7 @@ def rule_f(ctx, out):
                         if "inpt_sk" in txt and "value" in txt:
                             out.ok({"function": f.name, "shortcut": txt, "restricted_to": "records without operands and value"})
                         else:
-                            out.bad(f"name-equality-shortcut:{f.name}:{norm(t)}", f"in {f.name} `{norm(t)}` lets records with operands or a value be matched by name",
+                            out.bad(f"name-equality-shortcut:{f.name}:{canon(norm(t), function_locals(f.node))}", f"in {f.name} `{norm(t)}` lets records with operands or a value be matched by name",
                                     where(f, p))
                     else:
                         out.ok()
@@ -346,8 +346,16 @@ def rule_g(ctx, out):
     f = ctx.func(f"{V}.compare_dependences")
     cfg = ctx.cfg(f)
     n = 0
+    # the flag: the local that is initialised to True at the top of the function and is what every `return <name>` returns
+    rets = [r for r in own_nodes(f.node) if isinstance(r, ast.Return) and isinstance(r.value, ast.Name)]
+    inits = [a for a in f.node.body if isinstance(a, ast.Assign) and isinstance(a.targets[0], ast.Name) and isinstance(a.value, ast.Constant) and a.value.value is True]
+    flags = {r.value.id for r in rets} & {a.targets[0].id for a in inits}
+    if len(flags) != 1:
+        raise AnalysisError("compare_dependences: verified flag idiom (initialised to True at the top, returned) not found")
+    FLAG = next(iter(flags))
+    # the optimized block's dependences: the parameter-derived collection the `all(...)` of the unmatched test ranges over
     for st in own_nodes(f.node):
-        if not (isinstance(st, ast.If) and any(call_name(c) == "all" for c in calls_in(st.test)) and "dep_opt" in norm(st.test)):
+        if not (isinstance(st, ast.If) and any(call_name(c) == "all" and c.args and isinstance(c.args[0], ast.GeneratorExp) for c in calls_in(st.test))):
             continue
         loop = getattr(st, "_parent", None)
         while loop is not None and not isinstance(loop, (ast.For, ast.While)):
@@ -359,9 +367,9 @@ def rule_g(ctx, out):
         if t is None or head is None:
             raise AnalysisError("compare_dependences: CFG nodes of the unmatched-dependence branch not found")
         n += 1
-        binders = {x.id for x in cfg.nodes if "verified" in node_binds(x)}
+        binders = {x.id for x in cfg.nodes if FLAG in node_binds(x)}
         if not binders:
-            raise AnalysisError("compare_dependences: no assignment to `verified` found")
+            raise AnalysisError(f"compare_dependences: no assignment to `{FLAG}` found")
         if cfg.paths_avoiding(t, head, binders, src_labels={"T"}, skip_exc=True):
             # name the statement that escapes
             esc = [x for b in st.body for x in ast.walk(b) if isinstance(x, (ast.Continue, ast.Pass, ast.Break))]
@@ -373,13 +381,7 @@ def rule_g(ctx, out):
             out.ok({"function": "compare_dependences", "branch": short(st.test, 70), "every_path": "assigns verified or raises"})
     if n < 1:
         raise AnalysisError("compare_dependences: unmatched-dependence branch not found")
-    # the flag starts True and is what is returned: so "undecided" means "accepted"
-    init = [a for a in f.node.body if isinstance(a, ast.Assign) and is_name_(a.targets[0], "verified")]
-    rets = [r for r in own_nodes(f.node) if isinstance(r, ast.Return) and isinstance(r.value, ast.Name) and r.value.id == "verified"]
-    if init and rets:
-        out.ok({"flag": "verified", "initial": short(init[0].value), "returned": True})
-    else:
-        raise AnalysisError("compare_dependences: verified flag idiom (init at top, returned) not found")
+    out.ok({"flag": FLAG, "initial": "True", "returned": True})
 
 
 def is_name_(e, n):
